@@ -252,6 +252,7 @@ func init() {
 		cs := searchCases(r, st, sizes(tier, 1200, 30000), cfg, 4, 12, "g")
 		cs = append(cs, reentrantCases(r, st, sizes(tier, 210, 4200), "re")...)
 		cs = append(cs, staleBindingCases(r, st, sizes(tier, 120, 1200), "sb")...)
+		cs = append(cs, ambiguousBackrefCases(st, "ab")...)
 		return append(cs, bindFailCases(r, st, sizes(tier, 700, 15000), "b")...)
 	}
 	propGens["C03"] = func(r *rand.Rand, tier string, st *Stats) []Case {
